@@ -165,6 +165,14 @@ def deserializeAccount : Dec Account := do
   let a ← (if storesLatestTxDe a.state then decFields acctTbl (elemList "deserializeAccount" 1) a else pure a)
   if isVersioned raw then deserializeAccountTlvData a else pure a
 
+/-- `LatestTx` present (and well-formed) exactly when the state stores it -/
+def latestTxWF : Option Tx → Bool → Prop
+  | some t, stores => stores = true ∧ t.WF
+  | none, stores => stores = false
+instance decLatestTxWF : (o : Option Tx) → (b : Bool) → Decidable (latestTxWF o b)
+  | some t, b => inferInstanceAs (Decidable (b = true ∧ t.WF))
+  | none, b => inferInstanceAs (Decidable (b = false))
+
 /-- Encodable domain of a stored account: field widths, valid keys, state one of the defined states, version a
 uint8, the outpoint index within the two bytes the format keeps, and `LatestTx` present (and itself
 well-formed) exactly when the state stores it. -/
@@ -172,11 +180,9 @@ def Account.WF (a : Account) : Prop :=
   WFu64 a.value ∧ WFu32 a.expiry ∧ a.traderKey.WF ∧
   validPubKey a.auctioneerKey = true ∧ validPubKey a.batchKey = true ∧ a.secret.length = 32 ∧
   a.state ∈ Store.accountStates.map (·.2) ∧ WFu32 a.heightHint ∧ a.outPoint.WF ∧ WFu8 a.version ∧
-  (match a.latestTx with
-   | some t => storesLatestTxSer a.state = true ∧ t.WF
-   | none => storesLatestTxSer a.state = false)
+  latestTxWF a.latestTx (storesLatestTxSer a.state)
 instance decAccountWF : Decidable (Account.WF a) := by
   unfold Account.WF
-  cases a.latestTx <;> infer_instance
+  infer_instance
 
 end Pool.C10
